@@ -68,8 +68,10 @@ namespace
       case tree_type::PRED_SUBX_ANY:
 	{
 	  assert (t.m_children.size () == 1);
+	  // Any sub-expression context has a scope of its own.
+	  bindings scope {bn};
 	  auto origin = std::make_shared <op_origin> (l);
-	  auto op = build_exec (t.child (0), l, rdv_ll, origin, bn, up);
+	  auto op = build_exec (t.child (0), l, rdv_ll, origin, scope, up);
 	  return std::make_unique <pred_subx_any> (op, origin);
 	}
 
@@ -180,8 +182,11 @@ namespace
 		strgr = std::make_shared <stringer_lit> (strgr, tree.str ());
 	      else
 		{
+		  // The embedded expression is a sub-expression
+		  // context: it has a scope of its own.
+		  bindings scope {bn};
 		  auto origin2 = std::make_shared <op_origin> (l);
-		  auto op = build_exec (tree, l, rdv_ll, origin2, bn, up);
+		  auto op = build_exec (tree, l, rdv_ll, origin2, scope, up);
 		  strgr = std::make_shared <stringer_op> (l, strgr,
 							  origin2, op);
 		}
